@@ -31,6 +31,11 @@ func resolveHttpLink(u *url.URL) (Deeplink, error) {
 	//? url host without schema parsing as path, see func description
 	fixURLHost(u)
 
+	// Hostname() also strips the brackets of an address literal: "[t.me]" is not the host t.me
+	if strings.HasPrefix(u.Host, "[") {
+		return nil, fmt.Errorf("'%v' is an address literal, not a hostname owned by telegram", u.Host)
+	}
+
 	//? Hostname(), cause MAYBE someone want add port for unknown reason. Logically it's better than u.Host
 	if !stringListContains(ReservedHosts(), u.Hostname()) {
 		return nil, fmt.Errorf("'%v' hostname is not owned by telegram", u.Hostname())
